@@ -130,7 +130,7 @@ def constructible(tree):
 
 
 def gen(rng, tier):
-    n = 500 if tier == "quick" else 25000
+    n = 500 if tier == "quick" else 18000
     for _ in range(n):
         counter = [0]
         with_caller = rng.random() < 0.45
@@ -274,8 +274,51 @@ def impl(case):
     except TypeError as e:  # e.g. non-default argument follows default argument: generator artefact
         return {"build_error": str(e)}
     sp.reset_globals()
+    first = _parse_once(c, u)
+    if all(o.get("o") == "ok" for o in first["outs"]) and first.get("values"):
+        # "equal to what the constructor produces" on EVERY parse: scribble on every mutable container of the first
+        # result, then parse the empty command line again with a fresh parser over the same classes (fresh caller
+        # instances): what comes back must still be the pristine defaults (nothing handed out may be shared with the
+        # next parse)
+        n_mut = sum(_scribble(v) for v in first["values"])
+        if n_mut:
+            second = _parse_once(c, u)
+            first["outs_again"] = second["outs"]
+            first["n_scribbled"] = n_mut
+    first.pop("values", None)
+    return first
+
+
+def _scribble(x, seen=None):
+    """append / insert into every list, dict and set reachable from a dataclass instance; returns how many were touched"""
+    seen = set() if seen is None else seen
+    if id(x) in seen:
+        return 0
+    seen.add(id(x))
+    n = 0
+    if dataclasses.is_dataclass(x) and not isinstance(x, type):
+        for f in dataclasses.fields(x):
+            n += _scribble(getattr(x, f.name), seen)
+    elif isinstance(x, list):
+        for it in list(x):
+            n += _scribble(it, seen)
+        x.append(x[0] if x else 0)
+        n += 1
+    elif isinstance(x, dict):
+        x["__scribbled__"] = 1
+        n += 1
+    elif isinstance(x, set):
+        x.add("__scribbled__")
+        n += 1
+    return n
+
+
+def _parse_once(c, u):
+    import simple_parsing
+
     outs = []
     refs = []
+    values = []
     for r in c["regs"]:
         cls = u.classes[r["tree"]["cls"]]
         caller = u.val(r["caller"]) if r["caller"] is not None else None
@@ -293,6 +336,7 @@ def impl(case):
             add_option_string_dash_variants=sp.DASH[c["cfg"]["dash"]], argument_generation_mode=sp.GEN[c["cfg"]["gen"]]))
         if res["o"] == "ok":
             outs.append({"o": "ok", "v": sp.cv(res["value"])})
+            values.append(res["value"])
         else:
             outs.append({k: v for k, v in res.items() if k != "value"})
     else:
@@ -308,9 +352,10 @@ def impl(case):
         if res["o"] == "ok":
             for r in c["regs"]:
                 outs.append({"o": "ok", "v": sp.cv(getattr(res["value"], r["dest"]))})
+                values.append(getattr(res["value"], r["dest"]))
         else:
             outs = [{k: v for k, v in res.items() if k != "value"}] * len(c["regs"])
-    return {"outs": outs, "refs": refs}
+    return {"outs": outs, "refs": refs, "values": values}
 
 
 def inst_for_model(inst, tree):
@@ -397,6 +442,15 @@ def oracle(case, obs):
         if o["v"] != ref:
             fails.append({"clause": "equals-default", "dest": r["dest"], "got": o["v"], "ref": ref,
                           "detail": f"dest {r['dest']}: got {o['v']} but {'the caller instance' if r['caller'] else 'cls()'} is {ref} (cfg {c['cfg']}, api {c['api']})"})
+    for r, o, o1, ref in zip(c["regs"], obs.get("outs_again", []), obs["outs"], obs["refs"]):
+        if "ctor" in ref:
+            continue
+        # judged against the first (pristine) result as well, so that a leaf already reported by `equals-default`
+        # is not reported a second time under this clause
+        if (o.get("o") != "ok" or o["v"] != ref) and o != o1:
+            fails.append({"clause": "equals-default-again", "dest": r["dest"], "got": o.get("v", o), "ref": ref,
+                          "detail": f"dest {r['dest']}: after the containers of a first result were modified, a FRESH parser's empty parse gives "
+                                    f"{o.get('v', o)} but {'the caller instance' if r['caller'] else 'cls()'} is {ref} (cfg {c['cfg']}, api {c['api']})"})
     return fails
 
 
